@@ -1,7 +1,7 @@
 (* C10 - Lazy stepping bounds run-ahead. *)
 From Coq Require Import ZArith List Bool Arith.
 Import ListNotations.
-From MV Require Import Time.Spec Sched.Timing Sched.Inv Sched.Init Sched.Wle Sched.Main Sched.Guards Sched.Final.
+From MV Require Import Time.Spec Sched.Timing Sched.Inv Sched.Init Sched.Wle Sched.Main Sched.Guards Sched.Final Sched.Later.
 Open Scope Z_scope.
 
 (* with lazy_stepping, when i begins a step at t, no simulator j it feeds has a scheduled or in-flight step earlier
@@ -11,3 +11,13 @@ Theorem C10_lazy_run_ahead_bound : forall st, static_ok st -> forall s i t m s',
   forall j d c, In (j,d) (succ_lazy st i) -> In c (cands (s j)) -> tle (act t d) c = true.
 Proof. exact C10_lazy_bound. Qed.
 Print Assumptions C10_lazy_run_ahead_bound.
+
+(* ... and it stays so for the rest of the run: once i has begun its step at t, a consumer j never again has an outstanding
+   step before act t d (j's progress had reached act t d, progress never goes back, every outstanding step lies at or
+   after its simulator's progress) - "producers never run more than one step ahead of their direct consumers" *)
+Theorem C10_run_ahead_bound_persists : forall st, static_ok st -> forall s i t m s',
+  lazy st = true -> reached st s -> apply st s (EvBegin i t m) = Ok s' ->
+  forall evs l, run st s' evs = Ok l -> forall sr, In sr (s' :: l) ->
+  forall j d c, In (j,d) (succ_lazy st i) -> In c (cands (sr j)) -> tle (act t d) c = true.
+Proof. exact lazy_bound_over_runs. Qed.
+Print Assumptions C10_run_ahead_bound_persists.
